@@ -151,6 +151,7 @@ struct Core {
     int max_armed = 0;
     bool cb_mut = false, late2d = false;
     std::string order_suspect, wait_suspect, kwait_suspect;
+    uint64_t ops_since_pass = 0, quiet_streak = 0;   // operations issued since the previous pass began / consecutive passes without any
     size_t wait_at = 0, kwait_at = 0;      // length of the script log when the suspicion arose
     uint64_t after_fail = 0;    // callbacks that still arrive after the case failed (a loop that spins is left by exception)
 
@@ -242,7 +243,17 @@ struct Core {
         if (E.deadline == pass_now) CNT("fired_exactly_on_deadline");
         ++fired_in_pass; last_fired = i; last_deadline_fired = E.deadline;
         ++E.k; ++E.fires;
-        if (E.persist) E.deadline += E.d;
+        if (E.persist) {
+            E.deadline += E.d;
+            // where does the re-armed deadline land among the other pending ones? (2-4 pending: root and its children)
+            int n = 0, earlier = 0, later_eq = 0;
+            for (auto &x : e) if (x.armed) { ++n; if (&x != &E) { if (x.deadline < E.deadline) ++earlier; else ++later_eq; } }
+            if (n == 3 && earlier == 1 && later_eq == 1) CNT("rearm_with_exactly_3_pending_lands_between_the_other_two");
+            if (n == 3 && earlier == 2) CNT("rearm_with_exactly_3_pending_lands_behind_both_others");
+            if (n == 3 && earlier == 0) CNT("rearm_with_exactly_3_pending_keeps_the_front");
+            if (n == 2 && earlier == 1) CNT("rearm_with_exactly_2_pending_lands_behind_the_other");
+            if (n == 4 && earlier >= 1 && later_eq >= 1) CNT("rearm_with_exactly_4_pending_lands_between_others");
+        }
         else { E.armed = false; E.oneshot_done = true; }
         return true;
     }
@@ -271,6 +282,21 @@ struct Core {
             if (!x.persist && x.deadline + x.d <= pass_now) { late2d = true; CNT("late_wake_oneshot_overdue_by_an_interval"); }
         }
         if (due >= 3) CNT("pass_with_three_or_more_timers_due");
+        // tiny populations: the heap's root and its two children are the whole story when 2-4 timers are pending
+        {
+            int n = armed_count(), front = -1;
+            for (size_t i = 0; i < e.size(); ++i) if (e[i].armed && (front < 0 || e[i].deadline < e[front].deadline)) front = (int)i;
+            bool pf = front >= 0 && e[front].persist;
+            if (n == 2 && pf) CNT("passes_with_exactly_2_pending_timers_and_periodic_front");
+            if (n == 3 && pf) CNT("passes_with_exactly_3_pending_timers_and_periodic_front");
+            if (n == 4 && pf) CNT("passes_with_exactly_4_pending_timers_and_periodic_front");
+            if (ops_since_pass == 0) {
+                ++quiet_streak; CNT("passes_with_no_operation_since_the_previous_pass");
+                if (n == 3 && pf) CNT("quiet_passes_with_exactly_3_pending_timers_and_periodic_front");
+                CMAX("max_consecutive_passes_without_any_operation", quiet_streak);
+            } else quiet_streak = 0;
+            ops_since_pass = 0;
+        }
         in_pass = true;
     }
 
@@ -444,6 +470,7 @@ struct TimerWorld : Core {
         uint64_t gen = e[j].gen = ++gen_ctr;
         ev[j]->setCallback([this, j, gen] { on_fire(j, gen); });
         sig.add(0x100 + j);
+        ++ops_since_pass;
         if (record) note(vh::fmt("new#%d", j));
         CNT("op_create");
         if (in_pass) CNT("op_create_in_callback_or_task");
@@ -454,6 +481,7 @@ struct TimerWorld : Core {
         ev[j]->initialize(Ms((int64_t)d), persist ? Event::Mode::kPersist : Event::Mode::kOneshot);
         E.inited = true; E.d = d; E.persist = persist; E.armed = false;
         sig.add(0x200 + j); sig.add(d * 2 + persist);
+        ++ops_since_pass;
         if (record) note(vh::fmt("init#%d(%llu,%s)", j, (unsigned long long)d, persist ? "persist" : "oneshot"));
         CNT("op_initialize");
         check_enabled(j, "initialize");
@@ -462,6 +490,7 @@ struct TimerWorld : Core {
         Ent &E = e[j];
         bool r0 = ev[j]->enable();
         sig.add(0x300 + j);
+        ++ops_since_pass;
         if (record) note(vh::fmt("en#%d", j));
         if (!E.inited) { CNT("op_enable_uninitialised"); (void)r0; check_enabled(j, "enable-uninitialised"); return; }
         if (E.armed) { CNT("op_enable_while_enabled_noop"); check_enabled(j, "enable"); return; }
@@ -480,6 +509,7 @@ struct TimerWorld : Core {
         ev[j]->disable();
         E.armed = false;
         sig.add(0x400 + j);
+        ++ops_since_pass;
         if (record) note(vh::fmt("dis#%d", j));
         check_enabled(j, "disable");
     }
@@ -490,6 +520,7 @@ struct TimerWorld : Core {
         ev[j] = nullptr;
         E.exists = false; E.armed = false; E.inited = false;
         sig.add(0x500 + j);
+        ++ops_since_pass;
         if (record) note(vh::fmt("del#%d", j));
     }
 
@@ -650,6 +681,11 @@ void timer_random_case(uint64_t idx, vh::Rng &r) {
     static const int kSlots[] = {1, 2, 3, 3, 4, 4, 5, 6, 8, 8};
     int nslots = r.pick(kSlots);
     if (r.chance(1, 16)) { nslots = r.chance(1, 2) ? 24 : 70; CNT("cases_with_24_or_70_timer_slots"); }   // heap depth 5-7, beyond the record pool's retention of 64
+    // tiny quiet population: 2-4 timers, a short periodic one plus timers whose deadlines fall between its successive deadlines,
+    // long stretches of passes with no enable/disable at all (a disable rebuilds the loop's heap and would hide a misplaced entry)
+    bool tiny = r.chance(3, 10);
+    uint64_t tiny_p = 0;
+    if (tiny) { static const int kTiny[] = {2, 3, 3, 3, 4, 4}; nslots = r.pick(kTiny); tiny_p = (uint64_t)r.range(1, 10); CNT("cases_tiny_quiet_population"); }
     w.setup((idx & 1) == 0, nslots);
     g_clock = pick_t0(r);
     uint64_t t0 = g_clock;
@@ -659,13 +695,31 @@ void timer_random_case(uint64_t idx, vh::Rng &r) {
     bool forever = r.chance(1, 2);
     w.record = true;
     w.cb_program = [&w](int i) { w.cb_random(i); };
-    w.note(vh::fmt("engine=%s drive=%s t0=%llu slots=%d:", w.lb.epoll ? "epoll" : "select", forever ? "forever" : "once", (unsigned long long)t0, nslots));
-    if (r.chance(1, 4)) { static const int kAge[] = {5, 70, 140}; age_loop(w, r.pick(kAge)); }
+    w.note(vh::fmt("engine=%s drive=%s t0=%llu slots=%d%s:", w.lb.epoll ? "epoll" : "select", forever ? "forever" : "once", (unsigned long long)t0, nslots, tiny ? " tiny" : ""));
+    if (!tiny && r.chance(1, 4)) { static const int kAge[] = {5, 70, 140}; age_loop(w, r.pick(kAge)); }
     int nsteps = (int)r.range(5, 26);
+    if (tiny) {
+        uint64_t q = tiny_p;
+        w.palette = {q, q + q / 2 + 1, 2 * q + q / 2 + 1, 3 * q + 1, 10 * q, 7 * q + 3};
+        w.cb_rate = r.chance(3, 4) ? 0 : 1;
+        nsteps = (int)r.range(12, 40);
+    }
     if (forever) CNT("drive_inside_runloop_forever"); else CNT("drive_runloop_once_per_pass");
 
     // first step: populate
     auto populate = [&] {
+        if (tiny) {     // everything armed at one instant; the enable order (= heap layout) is shuffled
+            std::vector<int> order;
+            for (int j = 0; j < nslots; ++j) order.push_back(j);
+            for (int j = nslots - 1; j > 0; --j) std::swap(order[j], order[r.below(j + 1)]);
+            for (int j : order) {
+                if (w.failed) break;
+                w.create(j);
+                if (j == 0) w.init(j, tiny_p, true); else w.init(j, w.pick_d(), r.chance(1, 3));
+                w.enable(j);
+            }
+            return;
+        }
         for (int j = 0; j < nslots && !w.failed; ++j) {
             if (r.chance(1, 8)) continue;
             w.create(j); w.init(j, w.pick_d(), r.chance(1, 2));
@@ -673,9 +727,23 @@ void timer_random_case(uint64_t idx, vh::Rng &r) {
         }
     };
     auto ops = [&] {
+        if (tiny) {     // mostly nothing; when something, preferably re-arming an idle timer (a push, not a rebuild)
+            if (!r.chance(1, 7)) return;
+            if (r.chance(3, 4)) {
+                std::vector<int> idle;
+                for (int j = 0; j < nslots; ++j) if (w.e[j].exists && w.e[j].inited && !w.e[j].armed) idle.push_back(j);
+                if (!idle.empty()) { w.enable(idle[r.below(idle.size())]); return; }
+            }
+            w.outside_op();
+            return;
+        }
         static const int kN[] = {0, 0, 1, 1, 1, 2, 3};
         int n = r.pick(kN);
         for (int k = 0; k < n && !w.failed; ++k) w.outside_op();
+    };
+    auto advance = [&](bool last) -> uint64_t {
+        if (tiny && !last && r.chance(1, 2)) return (uint64_t)r.range(1, (int64_t)(2 * tiny_p));   // step through the periodic timer's rhythm
+        return last ? w.pick_adv() + 60 : w.pick_adv();
     };
 
     if (!forever) {
@@ -684,7 +752,7 @@ void timer_random_case(uint64_t idx, vh::Rng &r) {
             if (s > 0) ops();
             w.check_wait();
             if (w.failed) break;
-            uint64_t adv = (s == nsteps - 1) ? w.pick_adv() + 60 : w.pick_adv();
+            uint64_t adv = advance(s == nsteps - 1);
             w.once_pass(adv, r.chance(1, 2));
             w.check_all_enabled("pass");
         }
@@ -698,7 +766,7 @@ void timer_random_case(uint64_t idx, vh::Rng &r) {
             if (s > 0) { if (w.record) w.note("{task"); ops(); if (w.record) w.note("}"); }
             w.check_wait();
             if (w.failed) { w.in_pass = false; w.lb.loop->exitLoop(); return; }
-            uint64_t adv = (s == nsteps - 1) ? w.pick_adv() + 60 : w.pick_adv();
+            uint64_t adv = advance(s == nsteps - 1);
             ++s;
             w.begin_pass(adv);
             pending = true;
@@ -725,6 +793,7 @@ void timer_random_case(uint64_t idx, vh::Rng &r) {
         }
     }
     w.finish_script();
+    if (w.failed) { if (tiny) CNT("violating_cases_tiny_quiet_population"); else CNT("violating_cases_other_populations"); }
     bool nontrivial = w.max_armed >= 3 && (w.cb_mut || w.late2d) && w.callbacks > 0;
     if (w.cb_mut) CNT("cases_with_in_callback_mutation");
     if (w.late2d) CNT("cases_with_late_wake");
@@ -785,6 +854,7 @@ struct PoolWorld : Core {
         auto key = std::make_pair(t.id(), t.pos());
         if (!issued.insert(key).second) { token_reissued = true; CNT("pool_token_equal_to_an_earlier_one"); }
         sig.add(0x100 + persist); sig.add(d);
+        ++ops_since_pass;
         if (record) note(vh::fmt("%s#%d(%llu)", persist ? "every" : "after", i, (unsigned long long)d));
         if (persist) CNT("op_doEvery"); else CNT("op_doAfter");
         if (in_pass) CNT("op_add_inside_pass");
@@ -796,6 +866,7 @@ struct PoolWorld : Core {
         bool ret = pool->cancel(tok[i]);
         E.armed = false; E.exists = false;
         sig.add(0x400 + i);
+        ++ops_since_pass;
         if (record) note(vh::fmt("cancel#%d=%d", i, ret));
         if (was) CNT("op_cancel_live");
         else {
@@ -810,6 +881,7 @@ struct PoolWorld : Core {
         for (size_t i = 0; i < e.size(); ++i) { e[i].armed = false; e[i].exists = false; pre_cleanup[i] = true; }
         had_cleanup = true;
         sig.add(0x700);
+        ++ops_since_pass;
         if (record) note("cleanup");
         CNT("op_cleanup");
         if (n > 0) CNT("op_cleanup_with_live_timers");
@@ -901,15 +973,45 @@ void pool_random_case(uint64_t idx, vh::Rng &r) {
     w.palette = pick_palette(r);
     w.cb_rate = (int)r.below(4);
     bool forever = r.chance(1, 2);
-    w.note(vh::fmt("engine=%s drive=%s t0=%llu:", w.lb.epoll ? "epoll" : "select", forever ? "forever" : "once", (unsigned long long)t0));
+    // tiny quiet population (see timer_random_case): 2-4 pool timers, one short doEvery, quiet stretches, population topped up with doAfter
+    bool tiny = r.chance(3, 10);
+    uint64_t tiny_p = (uint64_t)r.range(1, 10);
+    int tiny_n = 0;
+    w.note(vh::fmt("engine=%s drive=%s t0=%llu%s:", w.lb.epoll ? "epoll" : "select", forever ? "forever" : "once", (unsigned long long)t0, tiny ? " tiny" : ""));
     int nsteps = (int)r.range(5, 24);
+    if (tiny) {
+        static const int kTiny[] = {2, 3, 3, 3, 4, 4};
+        tiny_n = r.pick(kTiny);
+        uint64_t q = tiny_p;
+        w.palette = {q, q + q / 2 + 1, 2 * q + q / 2 + 1, 3 * q + 1, 10 * q, 7 * q + 3};
+        w.cb_rate = r.chance(3, 4) ? 0 : 1;
+        nsteps = (int)r.range(12, 40);
+        CNT("cases_tiny_quiet_population");
+    }
     if (forever) CNT("drive_inside_runloop_forever"); else CNT("drive_runloop_once_per_pass");
 
-    auto populate = [&] { int n = (int)r.range(1, 7); for (int k = 0; k < n; ++k) w.add(r.chance(1, 2), w.pick_d()); };
+    auto populate = [&] {
+        if (tiny) {
+            int at = (int)r.below(tiny_n);      // position of the short periodic timer in the creation order (= heap layout)
+            for (int k = 0; k < tiny_n; ++k) { if (k == at) w.add(true, tiny_p); else w.add(r.chance(1, 3), w.pick_d()); }
+            return;
+        }
+        int n = (int)r.range(1, 7); for (int k = 0; k < n; ++k) w.add(r.chance(1, 2), w.pick_d());
+    };
     auto ops = [&] {
+        if (tiny) {     // mostly nothing; a fired one-shot is replaced now and then (an insertion, not a rebuild); cancels are rare
+            if (!r.chance(1, 7)) return;
+            if (w.live_count() < tiny_n && r.chance(4, 5)) { w.add(false, w.pick_d()); return; }
+            w.outside_op();
+            return;
+        }
         static const int kN[] = {0, 0, 1, 1, 1, 2, 3};
         int n = r.pick(kN);
         for (int k = 0; k < n && !w.failed; ++k) w.outside_op();
+    };
+    auto advance = [&](bool last) -> uint64_t {
+        if (tiny && !last && r.chance(1, 2)) return (uint64_t)r.range(1, (int64_t)(2 * tiny_p));
+        return last ? w.pick_adv() + 60 : w.pick_adv();
     };
     if (!forever) {
         populate();
@@ -917,7 +1019,7 @@ void pool_random_case(uint64_t idx, vh::Rng &r) {
             if (s > 0) ops();
             w.check_wait();
             if (w.failed) break;
-            uint64_t adv = (s == nsteps - 1) ? w.pick_adv() + 60 : w.pick_adv();
+            uint64_t adv = advance(s == nsteps - 1);
             w.once_pass(adv, r.chance(1, 2));
         }
     } else {
@@ -930,7 +1032,7 @@ void pool_random_case(uint64_t idx, vh::Rng &r) {
             if (s > 0) { if (w.record) w.note("{task"); ops(); if (w.record) w.note("}"); }
             w.check_wait();
             if (w.failed) { w.in_pass = false; w.lb.loop->exitLoop(); return; }
-            uint64_t adv = (s == nsteps - 1) ? w.pick_adv() + 60 : w.pick_adv();
+            uint64_t adv = advance(s == nsteps - 1);
             ++s;
             w.begin_pass(adv);
             pending = true;
@@ -952,6 +1054,7 @@ void pool_random_case(uint64_t idx, vh::Rng &r) {
         CNT("tail_cleanup_then_far_pass");
     }
     w.finish_script();
+    if (w.failed) { if (tiny) CNT("violating_cases_tiny_quiet_population"); else CNT("violating_cases_other_populations"); }
     bool nontrivial = w.max_armed >= 3 && (w.cb_mut || w.late2d) && w.callbacks > 0;
     if (w.cb_mut) CNT("cases_with_in_callback_mutation");
     if (w.late2d) CNT("cases_with_late_wake");
